@@ -257,19 +257,56 @@ def _num(x: Any) -> Any:
     return None
 
 
+def temporal_of_int(t: T, n: int) -> Any:
+    """What an int given for a temporal column denotes: n units after the epoch / midnight / zero."""
+    try:
+        if t[0] == "date":
+            return EPOCH_DATE + dt.timedelta(days=n)
+        if t[1] == "ns":
+            if n % 1000:
+                return None  # not a whole microsecond: as_py() refuses it (loudly)
+            us = n // 1000
+        else:
+            us = n * UNITS[t[1]]
+        if t[0] == "ts":
+            return (EPOCH_AWARE if t[2] else EPOCH) + dt.timedelta(microseconds=us)
+        if t[0] == "time":
+            return (dt.datetime.min + dt.timedelta(microseconds=us)).time()
+        if t[0] == "dur":
+            return dt.timedelta(microseconds=us)
+    except OverflowError:
+        return None
+    return None
+
+
+def _as_items(v: Any) -> list[Any] | None:
+    """The elements a value given for a list / frozenset column is iterated into (after _convert_for_arrow)."""
+    if isinstance(v, dict):
+        return list(v.items())
+    if isinstance(v, (list, tuple, set, frozenset, str, bytes, bytearray, range)):
+        return list(v)
+    return None
+
+
 def same_value(v: Any, r: Any, t: T) -> bool:
     """`r` denotes the same value as the (possibly ill-typed) `v` passed for annotation t: nothing was lost
     or altered, only the Python representation type may be the declared one."""
     if exact_eq(v, r):
         return True
     k = t[0]
+    if k not in ("enum", "data", "opt"):
+        # the framework's own wire form (_convert_for_arrow): Enum -> name, dataclass -> bytes
+        if isinstance(v, enum.Enum):
+            return same_value(v.name, r, t)
+        if isinstance(v, ArrowSerializableDataclass):
+            return same_value(v.serialize_to_bytes(), r, t)
     if k == "opt":
         return (v is None and r is None) or same_value(v, r, t[1])
     if v is None or r is None:
         return False
     if k in ("int", "float", "dec"):
         if isinstance(v, float) and isinstance(r, float) and v != v and r != r:
-            return k == "float" and t[1] == 64 and f_bits(v) == f_bits(r)
+            return k == "float"  # NaN stays NaN (float64: bit-exact is demanded by exact_eq for well-typed values)
         a, b = _num(v), _num(r)
         return a is not None and b is not None and a == b
     if k == "str":
@@ -280,12 +317,24 @@ def same_value(v: Any, r: Any, t: T) -> bool:
         return isinstance(r, ENUMS[t[1]]) and isinstance(v, str) and v == r.name
     if k == "data":
         return isinstance(r, DATAS[t[1]]) and isinstance(v, bytes) and v == r.serialize_to_bytes()
+    if k in ("date", "ts", "time", "dur"):
+        n = _num(v)
+        if n is not None and n.denominator == 1 and not isinstance(v, bool):
+            w = temporal_of_int(t, int(n))
+            return w is not None and exact_eq(w, r)
+        return False
     if k == "list":
-        return isinstance(v, (list, tuple)) and isinstance(r, list) and len(v) == len(r) and all(same_value(x, y, t[1]) for x, y in zip(v, r))
-    if k == "set":
-        if not isinstance(r, frozenset) or not isinstance(v, (list, tuple, set, frozenset)):
+        items = _as_items(v)
+        if items is None or not isinstance(r, list) or len(items) != len(r):
             return False
-        return all(any(same_value(x, y, t[1]) for y in r) for x in v) and all(any(same_value(x, y, t[1]) for x in v) for y in r)
+        if isinstance(v, (set, frozenset)):  # unordered source
+            return all(any(same_value(x, y, t[1]) for y in r) for x in items) and all(any(same_value(x, y, t[1]) for x in items) for y in r)
+        return all(same_value(x, y, t[1]) for x, y in zip(items, r))
+    if k == "set":
+        items = _as_items(v)
+        if not isinstance(r, frozenset) or items is None:
+            return False
+        return all(any(same_value(x, y, t[1]) for y in r) for x in items) and all(any(same_value(x, y, t[1]) for x in items) for y in r)
     if k == "map":
         if not isinstance(r, dict):
             return False
@@ -413,10 +462,11 @@ def encodable(v: Any) -> bool:
 # ------------------------------------------------------------------ generators
 SCALARS: list[T] = (
     [("int", s, b) for s in (True, False) for b in (8, 16, 32, 64)]
-    + [("float", 64), ("float", 32), ("str",), ("bytes",), ("bool",), ("date",)]
+    + [("float", 64), ("float", 32), ("str",), ("bytes",), ("bool",)]
     + [("ts", u, tz) for u in ("s", "ms", "us", "ns") for tz in (False, True)]
     + [("time", u) for u in ("s", "ms", "us", "ns")]
     + [("dur", u) for u in ("s", "ms", "us", "ns")]
+    + [("date",)]
 )
 DECIMALS: list[T] = [("dec", 10, 2), ("dec", 38, 0), ("dec", 5, -2), ("dec", 38, 10)]
 SPECIAL_FLOATS = [
@@ -484,7 +534,7 @@ def gen_value(t: T, rng: Any, depth: int = 0) -> Any:
         if t[1] == "ns":
             lo, hi = -(2**63) // 1000 + 1, (2**63 - 1) // 1000
         elif t[1] == "us":
-            lo, hi = -(2**63), 2**63 - 1
+            lo, hi = -106751991 * 86_400_000_000, 2**63 - 1  # pyarrow refuses timedeltas below -106751991 days
         else:
             lo, hi = _td_us(dt.timedelta.min), _td_us(dt.timedelta.max)
         us = rng.choice([lo, hi, 0, -1, 1, -unit, unit, rng.randint(-10**13, 10**13), rng.randint(lo, hi)])
@@ -494,7 +544,7 @@ def gen_value(t: T, rng: Any, depth: int = 0) -> Any:
     if k == "dec":
         p, s = t[1], t[2]
         c = rng.choice([0, 1, -1, 10 ** p - 1, -(10 ** p - 1), rng.randint(-(10 ** min(p, 12)), 10 ** min(p, 12))])
-        return Decimal(c).scaleb(-s)
+        return Decimal((1 if c < 0 else 0, tuple(int(ch) for ch in str(abs(c))), -s))  # exact: no context rounding
     if k == "opt":
         return None if rng.random() < 0.35 else gen_value(t[1], rng, depth)
     if k == "list":
